@@ -52,6 +52,10 @@ func determine(r klog.Record, b txt.Block) *style {
 		})
 	}
 	for _, l := range b.Lines() {
+		if l.IsBlank() {
+			// Blank lines might consist of whitespace, which is not indentation.
+			continue
+		}
 		if l.Indentation() != "" {
 			s.indentation.Set(l.Indentation())
 			break
